@@ -1835,11 +1835,25 @@ func (l *Lowerer) lowerConstantBinaryExpr(name string, typ parser.Type, expr *pa
 			typeHandle = l.registerType("", ir.ScalarType{Kind: ir.ScalarFloat, Width: 4})
 		}
 
+		// The bits are stored in the declared float type: half bits for f16,
+		// double bits for f64 (back ends emit them as a constant of that type).
+		bits := uint64(math.Float32bits(float32(floatVal)))
+		if int(typeHandle) < len(l.module.Types) {
+			if st, ok := l.module.Types[typeHandle].Inner.(ir.ScalarType); ok && st.Kind == ir.ScalarFloat {
+				switch st.Width {
+				case 2:
+					bits = uint64(float32ToHalf(float32(floatVal)))
+				case 8:
+					bits = math.Float64bits(floatVal)
+				}
+			}
+		}
+
 		handle := ir.ConstantHandle(len(l.module.Constants))
 		l.module.Constants = append(l.module.Constants, ir.Constant{
 			Name:  name,
 			Type:  typeHandle,
-			Value: ir.ScalarValue{Bits: uint64(math.Float32bits(float32(floatVal))), Kind: ir.ScalarFloat},
+			Value: ir.ScalarValue{Bits: bits, Kind: ir.ScalarFloat},
 		})
 		l.moduleConstants[name] = handle
 		return nil
